@@ -19,6 +19,9 @@ props = {
  "C01": dict(
    text="Theorem c01_policy: for all 8192 cells (3 options x {unset, True, False, 'true'} x Response signature state x assertion signature state x plain/encrypted x 4 bindings) the modelled two-pass control flow of _parse_response yields identity iff every present signature verifies and the demanded signatures are carried (both directions; PAOS never unravelled) - a finite truth table proved completely inside the kernel; c01_defaults is an obligation over the option defaults regenerated from client_base.py by AST on every run. Correspondence: the real Saml2Client on real RSA signatures (valid / byte-corrupted / made with an untrusted key), real encryption and all bindings: quick = all 1024 POST/plain cells + 1000 seeded cells of the rest, thorough = all 8192.",
    note="Assumes the xmlsec1 stand-in (sign/verify/encrypt/decrypt) and ideal RSA/AES; message content is not an input of the signature decision (widened randomly in the correspondence).", design="6/C01"),
+ "C03": dict(
+   text="Theorem c03_trust: for every metadata shape (any number of entities, role descriptors and KeyDescriptors), claimed issuer, embedded certificates, only_use_keys_in_metadata setting, enveloped or detached signature and every ideal signature scheme (Section hypotheses verify_spec, sign_inj; instantiated by a term algebra in c03_instance) the modelled certificate selection + verification loop accepts only under a certificate published for signing (or without use) under the claimed issuer, uses the embedded certificate only as the opt-in fallback when metadata has no signing key for the issuer, hands the verifier only such certificates, and accepts signatures of published signing keys (induction over the lists). Correspondence: the complete 720-cell product of the quantifier (+180 altered-content rows) on real RSA through SP and IdP entry points; observed accept/reject AND which certificate files the xmlsec1 stand-in was handed.",
+   note="Crypto idealised (hypotheses named in the theorem statement); xmlsec1 stand-in semantics for --enabled-key-data/--pubkey-cert-pem; single metadata source (store order is C11).", design="6/C03"),
 }
 checks = []
 for pid, d in sorted(props.items()):
